@@ -15,8 +15,10 @@ TError  == IsEvent("Error") /\ Complete /\ Last(tlog').what = "error" /\ E.t = t
 TSleep  == IsEvent("Sleep") /\ Sleep /\ E.d = Last(sleeps')
 TReturn == IsEvent("Return") /\ phase = "done" /\ result.k = "response" /\ result.o = E.o /\ UNCHANGED vars
 TRaise  == IsEvent("Raise") /\ phase = "done" /\ result.k = "raise" /\ result.o = E.o /\ E.same = TRUE /\ UNCHANGED vars
+\* the driver starts the next request on the same client
+TAgain  == IsEvent("Again") /\ Again
 TSilent == (BeginDone \/ CompleteDone \/ Decide) /\ Silent
-TraceNext == TBegin \/ TSend \/ TEnd \/ TError \/ TSleep \/ TReturn \/ TRaise \/ TSilent
+TraceNext == TAgain \/ TBegin \/ TSend \/ TEnd \/ TError \/ TSleep \/ TReturn \/ TRaise \/ TSilent
 TraceConstraint ==
     /\ AtMostNPlus1 /\ ResendExactlyWhen /\ NoResendAfterFinal /\ SleepsAreBackoffPrefix /\ LastOutcomeUnchanged
     /\ PerRequestReplaces /\ Paired /\ CompletionMatchesOutcome /\ ConfigOrder /\ CountsEqualOnExit
